@@ -163,6 +163,16 @@ Proof.
 Qed.
 Print Assumptions C11_line_height_spec.
 
+(* the height of a line is a function of the atomic inlines it holds (in order), and a placed
+   line shows exactly one atomic box per atomic inline: so the height the property requires
+   of a line can be read off the atomic boxes found on it, whatever the partition
+   (Check.C11.vert_ok evaluates this on the lines of the implementation) *)
+Theorem C11_line_height_atomics : forall c first last l,
+  line_height c l = line_height c (filter is_atomic l) /\
+  length (filter is_fa (place c first last l)) = length (filter is_atomic l).
+Proof. intros c first last l. exact (conj (line_height_atomics c l) (place_atomics c first last l)). Qed.
+Print Assumptions C11_line_height_atomics.
+
 (* "text-align places the content at the start, end, centre or justifies it across the
    available width"; content that does not fit is start-aligned; the last line of a
    justified block is start-aligned.  W = text-indent + width of the trimmed line. *)
@@ -378,3 +388,18 @@ Example C11_example_tags :
   map (map fst) (break_lines_e 50 0 (bw 2 ++ [Space Normal 10] ++ bw 8)) =
   [[true; false]; [true; false; false; false; false]; [false; false; false]].
 Proof. vm_compute. reflexivity. Qed.
+
+(* ---- a box with horizontal padding glued to what follows: `<span style="padding:0 20px">aa
+   bb c</span>dd` in 120 (glyphs of 10).  The box fits entirely (110), `dd` is glued to it and
+   does not: the line is broken at the LAST opportunity inside the box ([aa bb | cdd], not
+   [aa | bb cdd]): greedy_maximal, with the box's end edge sticking to `c`.  The heights of
+   the lines depend on the atomic inlines only. *)
+Definition ex_glued : list item :=
+  [Open 20; Word 20; Space Normal 10; Word 20; Space Normal 10; Word 10; Close 20; Word 20].
+
+Example C11_example_glued_box :
+  flat (break_lines 120 0 ex_glued) =
+  [[Open 20; Word 20; Space Normal 10; Word 20; Space Normal 10]; [Word 10; Close 20; Word 20]]
+  /\ map lw (flat (break_lines 120 0 ex_glued)) = [70; 50]
+  /\ lw ([Open 20; Word 20; Space Normal 10; Word 20; Space Normal 10] ++ [Word 10; Close 20; Word 20]) = 130.
+Proof. vm_compute. repeat split; reflexivity. Qed.
